@@ -338,6 +338,12 @@ def lookalike_renames(rng, nl):
         c = rng.choice(cands)
         if c not in out.values() and c not in victims:
             out[v] = c
+    if out and rng.random() < 0.4:
+        # the first alternative a uniquifier would try is taken as well
+        base = rng.choice(sorted(out.values()))
+        rest = [v for v in victims if v not in out]
+        if rest and base + "_0" not in victims and base + "_0" not in out.values():
+            out[rng.choice(rest)] = base + "_0"
     return out
 
 
